@@ -2,6 +2,8 @@ use typed_builder::TypedBuilder;
 
 /// Price impact parameters.
 #[derive(Debug, Clone, Copy, TypedBuilder)]
+// verif hook: equality is needed only by the relational verification harnesses (feature `verif`).
+#[cfg_attr(feature = "verif", derive(PartialEq, Eq))]
 pub struct PriceImpactParams<T> {
     exponent: T,
     positive_factor: T,
